@@ -320,6 +320,14 @@ def naming_cases(chk, root):
         ('file names differing in a dash / its escape sequence (header guards, D170)',
          {'msg-base.prophy': 'struct Bb { u8 b; };\n', 'msg_x2D_base.prophy': '#include "msg-base.prophy"\nstruct Ee { Bb b; u16 e; };\n'},
          'struct Bb { u8 b; };\nstruct Ee { Bb b; u16 e; };\n', 'msg_x2D_base', 'Ee', ['cpp']),
+        ('one file under two base names (an alias link): refused, or equal to the concatenation (D186)',
+         {'types_v2.prophy': 'struct Id { u32 v; };\n', 'types.prophy': '->types_v2.prophy', 'old.prophy': '#include "types.prophy"\nstruct Old { Id i; };\n',
+          'app.prophy': '#include "old.prophy"\n#include "types_v2.prophy"\nstruct App { Old o; Id i; };\n'},
+         'struct Id { u32 v; };\nstruct Old { Id i; };\nstruct App { Old o; Id i; };\n', 'app', 'App', ['cpp', 'refusal-ok']),
+        ('a file reached through a hard link in another directory (D186)',
+         {'src/common/ids.prophy': 'struct Id { u32 v; };\n', 'export/ids.prophy': '=>src/common/ids.prophy', 'src/a.prophy': '#include "common/ids.prophy"\nstruct A { Id i; };\n',
+          'app.prophy': '#include "src/a.prophy"\n#include "export/ids.prophy"\nstruct App { A a; Id i; };\n'},
+         'struct Id { u32 v; };\nstruct A { Id i; };\nstruct App { A a; Id i; };\n', 'app', 'App', []),
         ('two files of one base name',
          {'common/types.prophy': 'struct P { u64 p; };\n', 'net/types.prophy': 'struct Q { u16 q; };\n',
           'app.prophy': '#include "common/types.prophy"\n#include "net/types.prophy"\nstruct A { P p; Q q; u8 z; };\n'},
@@ -333,8 +341,13 @@ def naming_cases(chk, root):
             if t.startswith('->'):
                 os.symlink(t[2:], os.path.join(cd, n))
                 continue
+            if t.startswith('=>'):
+                continue            # hard links: once their targets are written
             with open(os.path.join(cd, n), 'w') as f:
                 f.write(t)
+        for n, t in files.items():
+            if t.startswith('=>'):
+                os.link(os.path.join(cd, t[2:]), os.path.join(cd, n))
         with open(os.path.join(cd, 'one', 'one.prophy'), 'w') as f:
             f.write(single)
         casej = {'kind': kind, 'files': files, 'single_file': single}
@@ -348,6 +361,8 @@ def naming_cases(chk, root):
         rc1, _, se1 = run_cli(['--python_out', os.path.join(cd, 'one'), os.path.join(cd, 'one', 'one.prophy')], cd)
         if rc1 != 0:
             raise core.Infra('single-file reference did not compile: ' + se1[:300])
+        if rc != 0 and 'refusal-ok' in outputs and 'Traceback' not in se:
+            continue            # a diagnostic is fine here: what must not happen is outputs that differ from the concatenation
         if rc != 0:
             chk.property_violation(casej, {'what': 'the split schema is refused although its concatenation compiles', 'stderr': se[:300]}, classify_c16)
             continue
@@ -579,7 +594,7 @@ def link_layouts(chk, root):
                          'shape': include_shape(r['nodes'], 'S_')} for r in impl]
             except Exception as ex:  # noqa
                 impl = {'error': {'FileNotFoundError': 'notFound', 'CyclicIncludeError': 'cyclic', 'SameNameError': 'sameName',
-                                  'AmbiguousIncludeError': 'ambiguous', 'IncludeDepthError': 'tooDeep'}.get(type(ex).__name__, type(ex).__name__)}
+                                  'AmbiguousIncludeError': 'ambiguous', 'IncludeDepthError': 'tooDeep', 'TwoNamesError': 'twoNames'}.get(type(ex).__name__, type(ex).__name__)}
             finally:
                 os.chdir(cwd)
             link_reqs.append({'op': 'prophyc_files_links', 'entries': mentries, 'files': mfiles, 'include_dirs': list(incdirs),
@@ -669,6 +684,12 @@ def collision_cases(chk, root):
         ('an output that cannot be written: a directory named b.py (D168)',
          {'a.prophy': 'struct A { u8 a; };\n', 'b.prophy': 'struct B { u8 b; };\n', 'out/b.py/keep': ''},
          ['a.prophy', 'b.prophy'], ['--cpp_out', '@O', '--python_out', '@O']),
+        ('an output that cannot be written: a dangling link named b.py (D185)',
+         {'a.prophy': 'struct A { u8 a; };\n', 'b.prophy': 'struct B { u8 b; };\n', 'out/b.py': '->nowhere/b.py'},
+         ['a.prophy', 'b.prophy'], ['--python_out', '@O']),
+        ('an output whose name is longer than the file system allows (D185)',
+         {'a.prophy': 'struct A { u8 a; };\n', 'b' * 248 + '.prophy': 'struct B { u8 b; };\n'},
+         ['a.prophy', 'b' * 248 + '.prophy'], ['--python_out', '@O', '--cpp_full_out', '@O']),
         ('a chain of 120 includes and its lower half (D171)',
          dict(('c%d.prophy' % k, ('#include "c%d.prophy"\n' % (k + 1) if k < 119 else '') + 'struct S%d { u8 x; };\n' % k) for k in range(120)),
          ['c0.prophy', 'c60.prophy'], ['--python_out', '@O']),
